@@ -81,6 +81,9 @@ def proved_tier(run, pid, cfg, tier, collect=None):
                 # a locked obligation no longer discharges: the violation is this named obligation; replay = a failing input of
                 # the same function found by the bounded tier on the real code, if any
                 wit = next((v for v in run.violations if v['key'].startswith(contract.name + '/')), None)
+                replayed = replay_model(run, key, contract, d['detail'])
+                if replayed:
+                    continue
                 run.violation('OBLIGATION ' + vkey, 'proof obligation %s (discharged on the unchanged tree) is not discharged: %s' % (c, d['detail']),
                               witness={'failing_input_from_bounded_tier': json.load(open(wit['replay'])) if wit else None, 'obligation': c},
                               no_input=wit is None, verifier_output=d['detail'])
@@ -111,6 +114,29 @@ def proved_tier(run, pid, cfg, tier, collect=None):
         modname, fname = hook.rsplit('.', 1)
         getattr(importlib.import_module(modname), fname)(run, pid, tier, lock, collect)
     return summary
+
+
+def replay_model(run, key, contract, detail):
+    """if the solver produced a counter-model with concrete inputs, run the REAL function on them and evaluate the contract's
+    ensures clauses concretely; a clause that fails is the replayed violation."""
+    if 'INPUTS ' not in detail:
+        return False
+    import numpy as np
+    from engine.pyvc import crosscheck, concrete
+    try:
+        raw = json.loads(detail.split('INPUTS ', 1)[1].split('\n')[0])
+        args = {k: (np.array(v, dtype=float) if isinstance(v, list) else v) for k, v in raw.items()}
+        res, raised, _ = concrete.check_call(contract, crosscheck.woven(contract), args)
+    except Exception as e:
+        run.notes.append('counter-model of %s could not be replayed: %r' % (key, e))
+        return False
+    bad = [(n, dt) for n, st, dt in res if st == 'violated']
+    if not bad:
+        run.notes.append('counter-model of %s did not reproduce on the real function (spurious for the real code: abstraction / reals vs floats): %s' % (key, raw))
+        return False
+    for n, dt in bad:
+        run.violation('%s/REPLAYED-%s' % (key.split('#')[0], n), 'solver counter-model replayed on the real function: clause `%s` fails; %s' % (n, dt), witness={'inputs_from_counter_model': raw, 'raised': raised})
+    return True
 
 
 def run_check(pid, tier, seed, replay=None):
